@@ -79,6 +79,46 @@ def inverted_limits_refused(ctx):
                   f'compares the value with the pair: write_<p>_limits((60, 40)) is accepted (order-checking types: {sorted(x.rpartition(".")[2] for x in oc)})', sd)
 
 
+def _check_function(m, f, fn):
+    """the function a `setattr(cls, 'check_<p>', fn)` installs, when it calls checkLimits: a lambda, a local def, or what a
+    module level factory (`_make_limit_check(pname)`) returns"""
+    body = None
+    if isinstance(fn, ast.Lambda):
+        body = fn
+    elif isinstance(fn, ast.Name):
+        body = next((d for d in ast.walk(f.node) if isinstance(d, ast.FunctionDef) and d.name == fn.id), None)
+        if body is None:
+            r = resolved(fn, f.node)        # a local the function (or the factory's result, expanded in place) was bound to
+            if isinstance(r, ast.Lambda):
+                body = r
+            elif isinstance(r, ast.Name) and r.id != fn.id:
+                body = next((d for d in ast.walk(f.node) if isinstance(d, ast.FunctionDef) and d.name == r.id), None)
+    elif isinstance(fn, ast.Call) and isinstance(fn.func, ast.Name):
+        fac = m.functions.get(f'{f.module.name}.{fn.func.id}')
+        if fac is not None:
+            inner = [d for d in ast.walk(fac.node) if isinstance(d, (ast.FunctionDef, ast.Lambda)) and d is not fac.node]
+            rets = [r.value for r in body_walk(fac.node) if isinstance(r, ast.Return) and r.value is not None]
+            for d in inner:
+                if isinstance(d, ast.Lambda) and any(r is d for r in rets):
+                    body = d
+                elif isinstance(d, ast.FunctionDef) and any(isinstance(r, ast.Name) and r.id == d.name for r in rets):
+                    body = d
+    if body is None or not any(isinstance(x, ast.Call) and call_attr(x) == 'checkLimits' for x in ast.walk(body)):
+        return None
+    return body
+
+
+def _postfix_values(m, f, it):
+    """the limit postfixes a loop runs over: a literal tuple / list of '_x' strings, a constant holding one, or a generator
+    expression over one of those (`pname + postfix for postfix in POSTFIXES`)"""
+    if isinstance(it, ast.GeneratorExp) and len(it.generators) == 1:
+        it = it.generators[0].iter
+    v = m.const(f.module, it)
+    if v is not UNKNOWN and isinstance(v, (tuple, list)) and v and all(isinstance(e, str) and e.startswith('_') for e in v):
+        return list(v)
+    return None
+
+
 @rule('C18.R2c', min_instances=1)
 def limit_check_is_installed_whatever_a_parent_defines(ctx):
     """wherever HasAccessibles installs the automatic limit check (`setattr(base, 'check_<p>', <function calling checkLimits>)`):
@@ -90,13 +130,8 @@ def limit_check_is_installed_whatever_a_parent_defines(ctx):
     n = 0
     for f in ci.methods.values():
         for c in [x for x in ast.walk(f.node) if isinstance(x, ast.Call) and dotted(x.func) == 'setattr' and len(x.args) == 3]:
-            fn = c.args[2]
-            body = None
-            if isinstance(fn, ast.Lambda):
-                body = fn
-            elif isinstance(fn, ast.Name):
-                body = next((d for d in ast.walk(f.node) if isinstance(d, ast.FunctionDef) and d.name == fn.id), None)
-            if body is None or not any(isinstance(x, ast.Call) and call_attr(x) == 'checkLimits' for x in ast.walk(body)):
+            body = _check_function(m, f, c.args[2])
+            if body is None:
                 continue
             n += 1
             ctx.analysed(f)
@@ -125,20 +160,32 @@ def automatic_limit_checks(ctx):
     ctx.analysed(hook)
     lim = m.cls(LIMIT)
     post = m.const(lim.module, lim.assigns.get('POSTFIXES')) if lim.assigns.get('POSTFIXES') is not None else UNKNOWN
-    loops = [n for n in body_walk(hook.node) if isinstance(n, ast.For) and isinstance(n.iter, (ast.Tuple, ast.List)) and
-             all(isinstance(e, ast.Constant) and isinstance(e.value, str) and e.value.startswith('_') for e in n.iter.elts)]
+    loops = [n for n in body_walk(hook.node) if isinstance(n, ast.For) and _postfix_values(m, hook, n.iter) is not None]
     if not loops or post is UNKNOWN:
         raise AnchorMissing('postfix loop in __init_subclass__ / Limit.POSTFIXES not found')
-    have = {e.value.lstrip('_') for e in loops[0].iter.elts}
+    have = {e.lstrip('_') for e in _postfix_values(m, hook, loops[0].iter)}
     ctx.check(have == set(post), f'{hook.qualname}:check generated for every limit postfix', loops[0],
               f'postfixes {sorted(have)}', f'automatic checks are generated for {sorted(have)} but Limit allows {sorted(post)}', hook)
-    lambdas = [n for n in ast.walk(loops[0]) if isinstance(n, ast.Lambda)]
-    ok = bool(lambdas) and all(isinstance(l.body, ast.Call) and call_attr(l.body) == 'checkLimits' and len(l.body.args) == 2 for l in lambdas)
+    sets = [c for c in ast.walk(loops[0]) if isinstance(c, ast.Call) and dotted(c.func) == 'setattr' and len(c.args) == 3]
+    bodies = [(c, _check_function(m, hook, c.args[2])) for c in sets]
+    lambdas = [c for c, b in bodies if b is not None]
+
+    def two_args(b):
+        cl = [x for x in ast.walk(b) if isinstance(x, ast.Call) and call_attr(x) == 'checkLimits']
+        return bool(cl) and all(len(x.args) == 2 for x in cl)
+    ok = bool(lambdas) and all(two_args(b) for c, b in bodies if b is not None)
     ctx.check(ok, f'{hook.qualname}:generated check calls checkLimits', loops[0], 'lambda self, value: self.checkLimits(value, pname)',
               'the generated check function does not call checkLimits(value, pname)', hook)
+    hcfg = CFG(hook.node, m, hook.module)
     for l in lambdas:
         guards = [a for a in ancestors(l) if isinstance(a, ast.If) and any(a is x for x in ast.walk(loops[0]))]
-        own = [g for g in guards if '__dict__' in src(g.test) and 'not in' in src(g.test)]
+        own = [g for g in guards if ('__dict__' in src(g.test) or 'vars(' in src(g.test)) and 'not in' in src(g.test)]
+        if not guards and hcfg.node_of(l):
+            # guard clause form: `if cname in vars(owner): continue`
+            if set(hcfg.node_of(l)) <= sides_with_fact(hcfg, lambda a, tv: isinstance(a, ast.Compare) and len(a.ops) == 1 and
+                                                       ((isinstance(a.ops[0], ast.NotIn) and tv) or (isinstance(a.ops[0], ast.In) and not tv)) and
+                                                       ('__dict__' in src(a.comparators[0]) or 'vars(' in src(a.comparators[0]))):
+                own = [l]
         inherited = [g for g in guards if 'hasattr(' in src(g.test) or 'getattr(' in src(g.test)]
         if inherited:
             ctx.bad(f'{hook.qualname}:generated check is not suppressed by an inherited hook', inherited[0],
@@ -149,13 +196,47 @@ def automatic_limit_checks(ctx):
         else:
             ctx.undecided(f'{hook.qualname}:generated check is not suppressed by an inherited hook', l, 'guard form not recognised', hook)
     cf = [n for n in body_walk(hook.node) if isinstance(n, ast.Assign) and src(n.targets[0]) == 'cfuncs']
-    ok = bool(cf) and '__mro__' in src(cf[0].value) and '__dict__' in src(cf[0].value)
+    ok = bool(cf) and '__mro__' in src(cf[0].value) and ('__dict__' in src(cf[0].value) or 'vars(' in src(cf[0].value))
     ctx.check(ok, f'{hook.qualname}:check hooks of the whole MRO', hook.node, 'cfuncs collected from b.__dict__ for b in cls.__mro__',
               'only the most derived check_<p> hook is collected: inherited limit checks are skipped', hook)
     ww = roles.write_wrapper(m)
     dflt = dict(zip([a.arg for a in ww.node.args.args][-len(ww.node.args.defaults):], ww.node.args.defaults))
     ctx.check(any(src(v) == 'cfuncs' for v in dflt.values()), f'{ww.qualname}:wrapper receives the collected hooks', ww.node,
               'check_funcs=cfuncs', 'the write wrapper is not given the collected check hooks', ww)
+
+
+def _generated_write_function(m, FE):
+    """(FuncInfo of the function installed as write_<name> by FloatEnumParam, {closure variable: [expressions it may denote]}):
+    a nested def of the installing method, or the nested def a factory method of the class returns"""
+    ci = m.cls(FE)
+    for f in ci.methods.values():
+        for c in calls_in(f.node):
+            if not (dotted(c.func) == 'setattr' and len(c.args) == 3 and 'write_' in src(resolved(c.args[1], f.node))):
+                continue
+            fn = c.args[2]
+            if isinstance(fn, ast.Name):
+                nf = f.nested.get(fn.id, [None])[0]
+                if nf is not None:
+                    outer = {}
+                    for n in body_walk(f.node):
+                        if isinstance(n, ast.Assign) and len(n.targets) == 1 and isinstance(n.targets[0], ast.Name):
+                            outer.setdefault(n.targets[0].id, []).append(n.value)
+                    return nf, outer
+            if isinstance(fn, ast.Call) and isinstance(fn.func, ast.Attribute) and dotted(fn.func.value) == 'self' and fn.func.attr in ci.methods:
+                h = ci.methods[fn.func.attr]
+                rets = [r.value.id for r in body_walk(h.node) if isinstance(r, ast.Return) and isinstance(r.value, ast.Name)]
+                for name in rets:
+                    nf = h.nested.get(name, [None])[0]
+                    if nf is not None:
+                        params = [a.arg for a in h.node.args.args][1:]
+                        outer = {p_: [a] for p_, a in zip(params, fn.args)}
+                        for k in fn.keywords:
+                            outer[k.arg] = [k.value]
+                        for n in body_walk(h.node):
+                            if isinstance(n, ast.Assign) and len(n.targets) == 1 and isinstance(n.targets[0], ast.Name):
+                                outer.setdefault(n.targets[0].id, []).append(n.value)
+                        return nf, outer
+    return None, {}
 
 
 @rule('C18.R3', min_instances=3)
@@ -172,15 +253,46 @@ def float_enum_derived(ctx):
               'the float side is not computed from the cached index: it can show a value that does not belong to the current index', g)
     sn = m.method(FE, '__set_name__', inherited=False)
     ctx.analysed(sn)
-    wf = sn.nested.get('wfunc', [None])[0]
+    wf, outer = _generated_write_function(m, FE)
     if wf is None:
         raise AnchorMissing('generated write function of FloatEnumParam not found')
-    calls = [c for c in calls_in(wf.node) if isinstance(c.func, ast.Call) and dotted(c.func.func) == 'getattr']
-    dflt = dict(zip([a.arg for a in wf.node.args.args][-len(wf.node.args.defaults):], wf.node.args.defaults))
-    ok = any(len(c.func.args) == 2 and isinstance(c.func.args[1], ast.Name) and 'write_' in src(dflt.get(c.func.args[1].id, ast.Constant(value='')))
-             for c in calls)
-    ctx.check(ok, f'{wf.qualname}:write goes through write_<index>', wf.node, "getattr(mobj, 'write_<idx>')(closest index)",
+    ctx.analysed(wf)
+    mobj = wf.node.args.args[0].arg if wf.node.args.args else 'mobj'
+
+    def names_a_write_method(e):
+        """the attribute name expression denotes 'write_<index name>': directly, as keyword default of the function, or as a
+        variable of the enclosing function / an argument the factory was called with"""
+        if 'write_' in src(e):
+            return True
+        if isinstance(e, ast.Name):
+            dflt = dict(zip([a.arg for a in wf.node.args.args][-len(wf.node.args.defaults):], wf.node.args.defaults)) if wf.node.args.defaults else {}
+            if e.id in dflt:
+                return 'write_' in src(dflt[e.id])
+            return any('write_' in src(x) for x in outer.get(e.id, []))
+        return False
+    getters = [c for c in calls_in(wf.node) if dotted(c.func) == 'getattr' and len(c.args) == 2 and src(c.args[0]) == mobj]
+    wcalls = []
+    for c in calls_in(wf.node):
+        fn = c.func
+        if isinstance(fn, ast.Name):
+            fn = resolved(fn, wf.node)
+        if isinstance(fn, ast.Call) and dotted(fn.func) == 'getattr' and len(fn.args) == 2 and names_a_write_method(fn.args[1]):
+            wcalls.append(c)
+    ctx.check(bool(wcalls), f'{wf.qualname}:write goes through write_<index>', wf.node, "getattr(mobj, 'write_<idx>')(closest index)",
               'the generated write method does not write the index parameter', wf)
+    # what the write method hands back (reply, cache, update of the float parameter) is READ BACK through the parameter after
+    # the index was written: a driver may end on another index than the one requested (clamping, stepping)
+    wcfg = CFG(wf.node, m, wf.module)
+    wids = [i for c in wcalls for i in wcfg.node_of(c)]
+    for r in [x for x in body_walk(wf.node) if isinstance(x, ast.Return)]:
+        v = resolved(r.value, wf.node) if r.value is not None else None
+        readback = isinstance(v, ast.Call) and dotted(v.func) == 'getattr' and len(v.args) >= 2 and src(v.args[0]) == mobj and not names_a_write_method(v.args[1])
+        after = bool(wids) and all(wcfg.dominates(wids, i) for i in wcfg.ids(r))
+        ctx.check(readback and after, f'{wf.qualname}:hands back the value read back after the write', r,
+                  'return getattr(mobj, <float parameter>) after the index write',
+                  f'`{src(r)}` is not a read of the float parameter after write_<index>: when the driver ends on another index than the requested one '
+                  '(clamping, stepping) the reply, the cached value and the update of the float parameter show the value of the REQUESTED index while the '
+                  'index parameter holds another one', wf)
     fin = m.method(FE, 'finish', inherited=False)
     ctx.analysed(fin)
     ok = any(call_attr(c) == 'addCallback' and c.args and src(c.args[0]) == 'self.idx_name' and len(c.args) > 1 and 'trigger_setter' in src(c.args[1])
